@@ -433,6 +433,25 @@ def confirm(v):
         ref = c05.py_ref(s)
         exp = 'ERR' if ref is None else H.dec_str(*ref)
         return not out.startswith(exp), '%r -> %s (reference %s)' % (s, out, exp)
+    if k == 'visit_float':
+        import struct
+        from fractions import Fraction
+        ebits, mbits = S.FLOAT_FMT[t['ty']][:2]
+        b = (mdl['sign'] << (ebits + mbits)) | (t['exp'] << mbits) | mdl['frac']
+        out = H.replay_lines(['serde\tde_token\t%s\t0x%x' % (t['ty'], b)], cfg_env={'VERIF_REPLAY_FEATURES': 'serde'})[0]
+        fmt = S.FLOAT_FMT[t['ty']]
+        f = struct.unpack(fmt[2], struct.pack(fmt[3], b))[0]
+        if out.startswith('PANIC'):
+            return True, out
+        if f != f or f in (float('inf'), float('-inf')):
+            return not out.startswith('ERR'), out
+        if out.startswith('ERR'):
+            return True, out
+        ri, rs = H.parse_dec(out)
+        return Fraction(ri) * Fraction(10) ** (-rs) != Fraction(f), out
+    if k == 'visit_int':
+        out = H.replay_lines(['serde\tde_token\t%s\t%d' % (t['ty'], mdl['v'])], cfg_env={'VERIF_REPLAY_FEATURES': 'serde'})[0]
+        return out != H.dec_str(mdl['v'], 0), out
     return False, 'no native replay for ' + k
 
 
@@ -449,7 +468,9 @@ def main(tier):
             tasks.append({'kind': 'json_ser', 'L': L, 'slo': lo, 'shi': hi, 'option': bool(L % 2)})
     for ty in ('u64', 'i64', 'u128', 'i128'):
         tasks.append({'kind': 'visit_int', 'ty': ty})
-    for ty, exps in (('f32', [0, 1, 127, 150, 200, 254, 255]), ('f64', [0, 1, 1023, 1075, 1151, 2046, 2047])):
+    # every f32 exponent field; for f64 every field from 2^-10 upward (integer-valued and machine-width boundaries 2^7..2^128
+    # included: one or two paths each above 2^52) plus the extremes
+    for ty, exps in (('f32', list(range(0, 256))), ('f64', sorted(set([0, 1, 2, 500, 1000] + list(range(1013, 2048)))))):
         for e in exps:
             tasks.append({'kind': 'visit_float', 'ty': ty, 'exp': e})
     tasks.append({'kind': 'json_de', 'limit': limit})
